@@ -233,6 +233,15 @@ impl<F: Seek> Directory<F> {
     }
 }
 
+/// A change to one field of a directory entry that `remove_dir_entry` has
+/// planned: (entry, new value).
+enum Relink {
+    Left(u32, u32),
+    Right(u32, u32),
+    Child(u32, u32),
+    Black(u32),
+}
+
 impl<F: Write + Seek> Directory<F> {
     /// Allocates a new chain with one sector, and returns the starting sector
     /// number.
@@ -355,6 +364,13 @@ impl<F: Write + Seek> Directory<F> {
         // Restructure the tree.  Entries are relinked rather than moved to
         // other slots, so that the stream IDs of all other entries (which
         // open `Stream` objects hold on to) remain valid.
+        //
+        // The changes are planned first, then written to the file, and only
+        // then made in memory: if a write fails, the in-memory tree is still
+        // the one the plan was made from, and a retry writes the same plan
+        // again.  (Relinking the in-memory tree step by step would let a
+        // retry pick a different predecessor and drop an entry.)
+        let mut plan = Vec::<Relink>::new();
         let left_sibling = self.dir_entry(stream_id).left_sibling;
         let right_sibling = self.dir_entry(stream_id).right_sibling;
         let replacement_id = if left_sibling == consts::NO_STREAM {
@@ -377,16 +393,16 @@ impl<F: Write + Seek> Directory<F> {
             if predecessor_parent_id != stream_id {
                 let predecessor_left =
                     self.dir_entry(predecessor_id).left_sibling;
-                self.set_right_sibling(
+                plan.push(Relink::Right(
                     predecessor_parent_id,
                     predecessor_left,
-                )?;
+                ));
                 if predecessor_left != consts::NO_STREAM {
-                    self.set_black(predecessor_left)?;
+                    plan.push(Relink::Black(predecessor_left));
                 }
-                self.set_left_sibling(predecessor_id, left_sibling)?;
+                plan.push(Relink::Left(predecessor_id, left_sibling));
             }
-            self.set_right_sibling(predecessor_id, right_sibling)?;
+            plan.push(Relink::Right(predecessor_id, right_sibling));
             predecessor_id
         };
         // We don't rebalance the tree, but an entry that moves to a new place
@@ -394,55 +410,65 @@ impl<F: Write + Seek> Directory<F> {
         // another red one (MS-CFB section 2.6.4 forbids that, and files
         // written by other implementations do contain red entries).
         if replacement_id != consts::NO_STREAM {
-            self.set_black(replacement_id)?;
+            plan.push(Relink::Black(replacement_id));
         }
 
         // Remove the entry.
         if link_owner_id == parent_id {
             debug_assert_eq!(self.dir_entry(parent_id).child, stream_id);
-            self.dir_entry_mut(parent_id).child = replacement_id;
-            let mut sector = self.seek_within_dir_entry(parent_id, 76)?;
-            sector.write_le_u32(replacement_id)?;
+            plan.push(Relink::Child(parent_id, replacement_id));
         } else if self.dir_entry(link_owner_id).left_sibling == stream_id {
-            self.set_left_sibling(link_owner_id, replacement_id)?;
+            plan.push(Relink::Left(link_owner_id, replacement_id));
         } else {
             debug_assert_eq!(
                 self.dir_entry(link_owner_id).right_sibling,
                 stream_id
             );
-            self.set_right_sibling(link_owner_id, replacement_id)?;
+            plan.push(Relink::Right(link_owner_id, replacement_id));
+        }
+        plan.retain(|relink| match *relink {
+            Relink::Black(id) => self.dir_entry(id).color != Color::Black,
+            _ => true,
+        });
+        for relink in plan.iter() {
+            self.write_relink(relink)?;
+        }
+        for relink in plan {
+            match relink {
+                Relink::Left(id, value) => {
+                    self.dir_entry_mut(id).left_sibling = value
+                }
+                Relink::Right(id, value) => {
+                    self.dir_entry_mut(id).right_sibling = value
+                }
+                Relink::Child(id, value) => {
+                    self.dir_entry_mut(id).child = value
+                }
+                Relink::Black(id) => {
+                    self.dir_entry_mut(id).color = Color::Black
+                }
+            }
         }
         self.free_dir_entry(stream_id)?;
         Ok(())
     }
 
-    fn set_black(&mut self, stream_id: u32) -> io::Result<()> {
-        if self.dir_entry(stream_id).color != Color::Black {
-            self.dir_entry_mut(stream_id).color = Color::Black;
-            let mut sector = self.seek_within_dir_entry(stream_id, 67)?;
-            sector.write_all(&[Color::Black.as_byte()])?;
+    /// Writes one planned change of `remove_dir_entry` to the file.
+    fn write_relink(&mut self, relink: &Relink) -> io::Result<()> {
+        match *relink {
+            Relink::Left(id, value) => {
+                self.seek_within_dir_entry(id, 68)?.write_le_u32(value)
+            }
+            Relink::Right(id, value) => {
+                self.seek_within_dir_entry(id, 72)?.write_le_u32(value)
+            }
+            Relink::Child(id, value) => {
+                self.seek_within_dir_entry(id, 76)?.write_le_u32(value)
+            }
+            Relink::Black(id) => self
+                .seek_within_dir_entry(id, 67)?
+                .write_all(&[Color::Black.as_byte()]),
         }
-        Ok(())
-    }
-
-    fn set_left_sibling(
-        &mut self,
-        stream_id: u32,
-        value: u32,
-    ) -> io::Result<()> {
-        self.dir_entry_mut(stream_id).left_sibling = value;
-        let mut sector = self.seek_within_dir_entry(stream_id, 68)?;
-        sector.write_le_u32(value)
-    }
-
-    fn set_right_sibling(
-        &mut self,
-        stream_id: u32,
-        value: u32,
-    ) -> io::Result<()> {
-        self.dir_entry_mut(stream_id).right_sibling = value;
-        let mut sector = self.seek_within_dir_entry(stream_id, 72)?;
-        sector.write_le_u32(value)
     }
 
     /// Adds a new (uninitialized) entry to the directory and returns the new
